@@ -136,6 +136,10 @@ class UMNDirHandler(DirHandler):
                         self.fileentries.remove(hidden)
                 else:
                     self.mergeentries(fileentriesdict[linkentry.selector], linkentry)
+            elif linkentry.gettype() == "X":
+                # Hiding a file that is not listed (deleted, ignored): there
+                # is nothing to hide and nothing to add.
+                continue
             else:
                 self.fileentries.append(linkentry)
 
